@@ -124,7 +124,7 @@ fn same_linear(a: &LinearModel, c: &LinearModel, skip_vars: &[String]) -> Result
     let obj = |l: &LinearModel| l.objective().iter().enumerate().filter(|(_, v)| **v != 0.0).map(|(i, v)| format!("{:?}*{}", v, l.variables()[i])).collect::<Vec<_>>();
     if obj(a) != obj(c) { return Err(format!("objective {:?} vs {:?}", obj(a), obj(c))); }
     if !matches!(a.optimization_type(), OptimizationType::Satisfy) && !close(a.objective_offset(), c.objective_offset()) { return Err(format!("offset {} vs {}", a.objective_offset(), c.objective_offset())); }
-    let dom = |l: &LinearModel| { let mut d: Vec<(String, String)> = l.variables().iter().filter(|v| !skip_vars.contains(v)).map(|v| (v.clone(), format!("{}", l.domain()[v].get_type()))).collect(); d.sort(); d };
+    let dom = |l: &LinearModel| { let mut d: Vec<(String, String)> = l.variables().iter().filter(|v| !skip_vars.contains(v)).map(|v| (v.clone(), format!("{:?}", l.domain()[v].get_type()))).collect(); d.sort(); d };
     if dom(a) != dom(c) { return Err(format!("domains {:?} vs {:?}", dom(a), dom(c))); }
     Ok(())
 }
